@@ -200,3 +200,35 @@ Proof.
   - intros buf v. apply read_all_upto_eof.
   - intros out v. apply copy_buffer_upto_eof.
 Qed.
+
+(* the transition systems, for every reader script: a push that reports success has put /
+   made visible exactly what its reader delivered before its first EOF *)
+Section EofConc.
+  Variable H : str -> str -> str.
+
+  Lemma cstep_success_upto st i n st' t w :
+    cinv H st -> cstep H st i n = Some st' ->
+    nth_error (c_thr st) i = Some t -> t_pc t = PIngest w [] None ->
+    oci_get (c_blobs st') (d_dg (t_d t)) = Some (upto_eof (t_evs t)) /\
+    matches_desc H (d_dg (t_d t)) (d_sz (t_d t)) (upto_eof (t_evs t)).
+  Proof.
+    intros [Ob Ft] Es Ei Epc. unfold cstep in Es. rewrite Ei, Epc in Es. inversion Es; subst; clear Es.
+    pose proof (Forall_nth_error _ _ _ _ Ft Ei) as Pt. unfold thr_ok in Pt. rewrite Epc in Pt.
+    destruct Pt as [v Ec]. rewrite app_nil_r in Ec.
+    pose proof (copy_buffer_upto_eof H (t_comb t) true _ _ _ _ _ _ _ Ec) as U.
+    apply copy_buffer_sound in Ec as (A & _). rewrite U. simpl. rewrite str_eqb_refl. auto.
+  Qed.
+
+  Lemma concurrent_oci_upto blobs ts sched st :
+    oci_reach H blobs -> Forall (fun t => t_pc t = PStart) ts ->
+    crun H (mkC blobs ts) sched = Some st ->
+    forall i n st' t w, cstep H st i n = Some st' -> nth_error (c_thr st) i = Some t ->
+      t_pc t = PIngest w [] None ->
+      oci_get (c_blobs st') (d_dg (t_d t)) = Some (upto_eof (t_evs t)) /\
+      matches_desc H (d_dg (t_d t)) (d_sz (t_d t)) (upto_eof (t_evs t)).
+  Proof.
+    intros R F E i n st' t w Es Ei Ep.
+    pose proof (crun_inv H sched _ _ (cinv_start H blobs ts (oci_reach_ok H blobs R) F) E) as Iv.
+    eapply cstep_success_upto; eauto.
+  Qed.
+End EofConc.
